@@ -178,15 +178,20 @@ Eof ==
 
 Decode ==
   /\ readable /\ ~Dead
-  /\ \E e \in BOOLEAN, a \in BOOLEAN :
+  /\ \E e \in BOOLEAN, a \in BOOLEAN, keep \in BOOLEAN :
      LET r == DecodeCall(e, a)
          goOn == Adapter = "ws" /\ "GoOnAfterErr" \in Dev
+         \* the stream ended inside a frame.  Either the adapter finds the fragment in its buffer and reports "bytes
+         \* remaining on stream", or the decoder had already taken the fragment (a length field, say) into its own state
+         \* and the adapter sees an empty buffer and a clean end.  Both are fine: nothing of the fragment is released.
+         partialAtEof == eof /\ r.res = "none" /\ r.buf > 0
      IN
-       /\ nf' = r.nf /\ buf' = r.buf /\ rawTaken' = r.raw /\ plain' = r.plain /\ items' = r.items
+       /\ (keep => partialAtEof)
+       /\ nf' = r.nf /\ buf' = (IF partialAtEof /\ keep THEN 0 ELSE r.buf) /\ rawTaken' = r.raw /\ plain' = r.plain /\ items' = r.items
        /\ connect' = r.connect /\ lost' = r.lost
-       /\ failed' = ((r.res = "err" /\ ~goOn) \/ (eof /\ r.res = "none" /\ r.buf > 0))
+       /\ failed' = ((r.res = "err" /\ ~goOn) \/ (partialAtEof /\ ~keep))
        /\ panicked' = (r.res = "panic")
-       /\ ended' = (eof /\ r.res = "none" /\ r.buf = 0)
+       /\ ended' = (eof /\ r.res = "none" /\ (r.buf = 0 \/ keep))
        /\ readable' = IF Adapter = "ws" /\ "OnePerMessage" \in Dev THEN FALSE ELSE r.res = "some"
   /\ UNCHANGED <<lay, arrived, eof, firstRead, hist>>
 
